@@ -250,7 +250,15 @@ def report_dict(chk):
                             st = common.must_keys(ctx, send, kw.value.id, c)
                             if st is None:
                                 return None
-                            return {k: v[1] for k, v in st.present.items() if v[1] is not None}
+                            d = {k: v[1] for k, v in st.present.items() if v[1] is not None}
+                            # fields given beside the splat: explicit keywords, and positional arguments under log_message's parameter names
+                            for kw2 in c.keywords:
+                                if kw2.arg:
+                                    d[kw2.arg] = kw2.value
+                            for i, a in enumerate(c.args):
+                                if i < len(lm.pos_params) and not isinstance(a, ast.Starred):
+                                    d[lm.pos_params[i]] = a
+                            return d
                     d = {}
                     for kw in c.keywords:
                         if kw.arg:
